@@ -22,6 +22,7 @@ func init() {
 			ruleC18T5(r)
 			ruleC18T6(r)
 			ruleC18T7(r, le)
+			ruleC18T8(r)
 		},
 	})
 }
@@ -383,4 +384,44 @@ func ruleC18T7(r *Run, le *LockEngine) {
 		}
 	}
 	r.Check(name+" request carries the registered id", okID, p.pos(wr.Pos()), name, "the queued request's id is the key under which the result channel was registered")
+}
+
+func ruleC18T8(r *Run) {
+	r.Begin("T8", "the broken connection is closed before redialing (so that a Read parked on it wakes up and moves to the new connection), and the transport's own Close/CloseWithStatus cancels the transport on every path, also when closing the underlying connection reports an error", 2)
+	p := r.P
+	rec := r.method(rcPkg, "Transport", "reconnect")
+	if rec != nil {
+		name := fnName(rec)
+		old := rec.Params[1]
+		var closeOld ssa.Instruction
+		allInstrs(rec, func(ins ssa.Instruction) {
+			if c, ok := ins.(*ssa.Call); ok && c.Call.IsInvoke() && c.Call.Method.Name() == "Close" && canonVal(c.Call.Value) == ssa.Value(old) {
+				closeOld = ins
+			}
+		})
+		conns := findCalls(rec, false, rcPkg+".Connector.Connect")
+		ok := closeOld != nil && len(conns) > 0
+		for _, c := range conns {
+			if closeOld == nil || !dominatesInstr(closeOld, c) {
+				ok = false
+			}
+		}
+		r.Check(name+" closes the old connection first", ok, p.pos(rec.Pos()), name, "old.Close() must dominate the redial: when only the write side noticed the failure, the read loop is still parked in old.Read() and never reaches the new connection otherwise")
+	}
+	for _, m := range []string{"CloseWithStatus"} {
+		fn := r.method(rcPkg, "Transport", m)
+		if fn == nil {
+			continue
+		}
+		name := fnName(fn)
+		isCancel := func(ins ssa.Instruction) bool {
+			cc := instrCall(ins)
+			if cc == nil || cc.StaticCallee() != nil || cc.IsInvoke() {
+				return false
+			}
+			return hasLeaf(p.Leaves(cc.Value, provOpts{}), "field:"+rcPkg+".Transport.cancel")
+		}
+		w := reachesFromEntryWithout(fn, func(ins ssa.Instruction) bool { return isReturn(ins) && ins.Block() != fn.Recover }, isCancel)
+		r.Check(name+" always cancels", w == nil, posOf(p, w), name, "a return of the transport's Close is reachable without cancel(): the transport is not marked closed, the loops redial after Close and later Reads/Writes block or succeed on a connection dialed after Close")
+	}
 }
